@@ -21,4 +21,4 @@ CONSTANTS
   NarrowSels <- NoNarrow
   KeyFam <- Fam
 INVARIANTS Inv_C01 Inv_C02 Inv_C03 Inv_C04 Inv_C04args Inv_C09 Inv_Clean Inv_IssueRel Inv_PresentRel Inv_Round EmitScenario
-CHECK_DEADLOCK FALSE
+CHECK_DEADLOCK TRUE
